@@ -5,11 +5,11 @@ SPEC = {
     'title': 'Execute history: pending messages are neither lost nor re-executed',
     'coq_check': 'C09_check',
     'parts': [
-        {'pkg': 'execute', 'src': 'harness/execute/c09_test.go', 'test': 'TestVerif_C09_ranges',
+        {'pkg': 'execute', 'src': 'harness/execute/c09_test.go', 'test': 'TestVerif_C09_ranges', 'fakes': True,
          'sinks': {'C09_ranges': 'ranges_judge'}, 'n': {'quick': 400, 'thorough': 12000}},
-        {'pkg': 'execute', 'src': 'harness/execute/c09_test.go', 'test': 'TestVerif_C09_filter',
+        {'pkg': 'execute', 'src': 'harness/execute/c09_test.go', 'test': 'TestVerif_C09_filter', 'fakes': True,
          'sinks': {'C09_filter': 'filter_judge'}, 'n': {'quick': 1500, 'thorough': 45000}},
-        {'pkg': 'execute', 'src': 'harness/execute/c09_test.go', 'test': 'TestVerif_C09_filter_exhaustive',
+        {'pkg': 'execute', 'src': 'harness/execute/c09_test.go', 'test': 'TestVerif_C09_filter_exhaustive', 'fakes': True,
          'sinks': {'C09_filter_all': 'filter_judge'}, 'n': {'quick': 900, 'thorough': 60000}},
         {'pkg': 'execute', 'src': 'harness/execute/c09_test.go', 'test': 'TestVerif_C09_pending', 'fakes': True,
          'sinks': {'C09_pending': 'pend_judge'}, 'n': {'quick': 400, 'thorough': 12000}},
